@@ -50,14 +50,14 @@ func (rr *NSEC3) Cover(name string) bool {
 		// Unknown hash algorithm, malformed salt or name: nothing is covered.
 		return false
 	}
-	owner := strings.ToUpper(rr.Hdr.Name)
+	owner := rr.Hdr.Name
 	labelIndices := Split(owner)
 	if len(labelIndices) < 2 {
 		return false
 	}
-	ownerHash := owner[:labelIndices[1]-1]
+	ownerHash := strings.ToUpper(owner[:labelIndices[1]-1])
 	ownerZone := owner[labelIndices[1]:]
-	if !IsSubDomain(ownerZone, strings.ToUpper(name)) { // name is outside owner zone
+	if !IsSubDomain(ownerZone, name) { // name is outside owner zone (names compare octet-wise, ignoring ASCII case)
 		return false
 	}
 
@@ -85,14 +85,14 @@ func (rr *NSEC3) Match(name string) bool {
 	if nameHash == "" {
 		return false
 	}
-	owner := strings.ToUpper(rr.Hdr.Name)
+	owner := rr.Hdr.Name
 	labelIndices := Split(owner)
 	if len(labelIndices) < 2 {
 		return false
 	}
-	ownerHash := owner[:labelIndices[1]-1]
+	ownerHash := strings.ToUpper(owner[:labelIndices[1]-1])
 	ownerZone := owner[labelIndices[1]:]
-	if !IsSubDomain(ownerZone, strings.ToUpper(name)) { // name is outside owner zone
+	if !IsSubDomain(ownerZone, name) { // name is outside owner zone (names compare octet-wise, ignoring ASCII case)
 		return false
 	}
 	if ownerHash == nameHash {
